@@ -316,6 +316,8 @@ class Flow:
                     v = ("rdiscr", base[1], base[2], pl["l"])
                 elif base[0] in ("opt", "optpair", "opt_t", "mopt"):
                     v = ("odiscr", pl["l"] if not pl.get("p") else None)
+                elif base[0] == "cf_break":
+                    v = ("breakdiscr",)
         elif "cast" in rv:
             pl = op_place(rv["op"])
             if pl is not None:
@@ -507,6 +509,8 @@ class Flow:
                 else:
                     ob("O3", not v[2], "single() can fail here: the grammar allows zero or several children" if v[2] else "", "single().unwrap")
                 out = ("node", v[1])
+        elif c.matches("core::ops::try_trait::Try::branch") and dargs and dargs[0] is not None and dargs[0][0] == "alwayserr":
+            out = ("cf_break",)
         elif c.matches("core::ops::try_trait::Try::branch") and dargs and dargs[0] is not None and dargs[0][0] in ("opt", "res", "optpair"):
             out = ("cf", dargs[0])
         elif c.matches(OPT_TO_RES) and dargs and dargs[0] is not None and dargs[0][0] == "opt":
@@ -557,6 +561,8 @@ class Flow:
                 callee = fs if fs is not None and fs.path in self.fns else None
             if callee is not None and self.const_bool_fn(callee) is not None:
                 out = ("boolconst", self.const_bool_fn(callee))
+            elif callee is not None and self.always_err_fn(callee):
+                out = ("alwayserr",)
             elif callee is not None:
                 dty = self.ty(fn, dst) if dst is not None else ""
                 if any(t in dty for t in (NODE_T, NODES_T, PAIR_T, PAIRS_T)) and callee.path not in self.ret_in and not record:
@@ -764,7 +770,12 @@ class Flow:
                     explicit_names = {self.rule_names[int(v)] for v in explicit_vals if int(v) < len(self.rule_names)}
                     if record:
                         self.switch_obligation(fn, b, t, dv, explicit_names)
-                if dv is not None and dv[0] in ("bconst", "bsplit"):
+                if dv is not None and dv[0] == "rulecmp" and record:
+                    self.assert_obligation(fn, b, t, dv, st)
+                if dv is not None and dv[0] == "breakdiscr":
+                    tg = dict(t["targets"]).get("1", t["otherwise"])
+                    outs.append((tg, st))
+                elif dv is not None and dv[0] in ("bconst", "bsplit"):
                     cases = {dv[1]: dv[2]} if dv[0] == "bconst" else dict(dv[1])
                     tmap = dict(t["targets"])
                     for truth, snap in cases.items():
@@ -825,6 +836,28 @@ class Flow:
             if fn.term(x)["k"] == "return":
                 return False
         return True
+
+    def assert_obligation(self, fn, b, t, dv, st):
+        """O4: `assert_eq!(node.as_rule(), Rule::X)` (or `if rule != X { panic }`): the edge on which the comparison fails can only panic."""
+        node_local, name, is_eq = dv[1], dv[2], dv[3]
+        tmap = dict(t["targets"])
+        false_tg = tmap.get("0", t["otherwise"])
+        true_tg = t["otherwise"] if "0" in tmap else tmap.get("1", t["otherwise"])
+        mismatch = false_tg if is_eq else true_tg
+        if mismatch is None or not self.panics_only(fn, mismatch):
+            return
+        if "pest_consume::parser" in (t.get("mc") or []):
+            return
+        nv = st.get(node_local) if node_local is not None else None
+        span = t.get("us") or t.get("sp")
+        if nv is None or nv[0] not in ("node", "pair") or nv[1] is None:
+            self.obligations[(fn.path, b, "O4")] = {"fn": fn.path, "bb": b, "kind": "O4", "ok": None, "detail": "the node's rule is not known", "span": span,
+                                                     "subject": "assert on as_rule()"}
+            return
+        extra = sorted(r for r in nv[1] if r != name)
+        self.obligations[(fn.path, b, "O4")] = {"fn": fn.path, "bb": b, "kind": "O4", "ok": not extra, "span": span, "missing": extra,
+                                                 "detail": ("the node can also be %s here, for which the assertion panics" % extra) if extra else "the node is always `%s`" % name,
+                                                 "subject": "assert on as_rule()"}
 
     def switch_obligation(self, fn, b, t, dv, explicit_names):
         ow = t["otherwise"]
@@ -915,6 +948,30 @@ class Flow:
             ok = False
         r = vals.pop() if ok and len(vals) == 1 else None
         self._cbf[f.path] = r
+        return r
+
+    def always_err_fn(self, f):
+        """A local function / closure every return of which is an Err (a `bail!` helper): its `?` never continues."""
+        if not hasattr(self, "_aef"):
+            self._aef = {}
+        if f.path in self._aef:
+            return self._aef[f.path]
+        n = 0
+        ok = "core::result::Result<" in (f.locals[0] if f.locals else "")
+        for bi, si, dst, rv, s in f.assigns():
+            if dst["l"] == 0 and not dst.get("p"):
+                if "agg" in rv and rv["agg"].get("adt") == "core::result::Result" and rv["agg"].get("v") == "Err":
+                    n += 1
+                else:
+                    ok = False
+        for c in f.calls():
+            if c.dst and c.dst["l"] == 0 and not c.dst.get("p"):
+                if c.matches("core::ops::try_trait::FromResidual::from_residual"):
+                    n += 1
+                else:
+                    ok = False
+        r = bool(ok and n)
+        self._aef[f.path] = r
         return r
 
     def touches(self, f):
